@@ -66,7 +66,15 @@ pub fn make_invoice(d: &Value) -> String {
     }
     let raw = b.build_raw().expect("build_raw");
     let signed: SignedRawBolt11Invoice = raw
-        .sign::<_, ()>(|h| Ok(Secp256k1::new().sign_ecdsa_recoverable(h, &secret(signer))))
+        .sign::<_, ()>(|h| {
+            let sig = Secp256k1::new().sign_ecdsa_recoverable(h, &secret(signer));
+            if d.get("flip_recid").is_some() {
+                // the same (r, s) with the other recovery id: still verifies against an explicit payee key, but "recovers" a
+                // key nobody owns
+                let (rid, bytes) = sig.serialize_compact();
+                Ok(secp256k1::ecdsa::RecoverableSignature::from_compact(&bytes, secp256k1::ecdsa::RecoveryId::from_i32(rid.to_i32() ^ 1).unwrap()).unwrap())
+            } else { Ok(sig) }
+        })
         .unwrap();
     let mut s = signed.to_string();
     match d.get("corrupt").and_then(|c| c.as_u64()).unwrap_or(0) {
@@ -91,7 +99,21 @@ pub fn view(blob: &[u8]) -> Value {
     let inv: Bolt11Invoice = match s.parse() { Ok(i) => i, Err(_) => return Value::Null };
     let sig_ok = inv.check_signature().is_ok();
     let last_hops: Vec<String> = inv.route_hints().iter().filter_map(|h| h.0.last().map(|hop| hex::encode(hop.src_node_id.serialize()))).collect();
-    let recovered = inv.recover_payee_pub_key();
+    // the key the signature is VERIFIED against, by secp256k1 directly (independent of the invoice crate's check_signature):
+    // the invoice's explicit payee key when it has one and the signature verifies against it, otherwise the key recovered from
+    // the signature. (With an explicit key the recovery id is irrelevant: both candidate keys satisfy the ECDSA equation.)
+    let recovered = {
+        let signed = inv.clone().into_signed_raw();
+        let rec = inv.recover_payee_pub_key();
+        match signed.raw_invoice().payee_pub_key() {
+            Some(pk) => {
+                let msg = secp256k1::Message::from_slice(&signed.signable_hash()[..]).unwrap();
+                let sig = signed.signature().0.to_standard();
+                if Secp256k1::new().verify_ecdsa(&msg, &sig, &pk.0).is_ok() { pk.0 } else { rec }
+            }
+            None => rec,
+        }
+    };
     json!({
         "hash": hex::encode(inv.payment_hash().to_byte_array()),
         "amount": inv.amount_milli_satoshis().map(|a| a.to_string()),
